@@ -97,7 +97,13 @@ func inScope(value, lowerBound, upperBound int) bool {
 }
 
 func translateLiteral(glossary []string, literal string) (int, error) {
-	upperCaseLiteral := strings.ToUpper(literal)
+	// names are ASCII; strings.ToUpper would also fold e.g. U+017F to 'S'
+	upperCaseLiteral := strings.Map(func(r rune) rune {
+		if 'a' <= r && r <= 'z' {
+			return r - 'a' + 'A'
+		}
+		return r
+	}, literal)
 	for i, value := range glossary {
 		if value == upperCaseLiteral {
 			return i, nil
